@@ -54,6 +54,9 @@ func runC02(p *Prog, r *Report) {
 	if want("C02.9") {
 		ruleMergedIterator(p, r, "C02.9")
 	}
+	if want("C02.13") {
+		ruleSkipListSearch(p, r, "C02.13")
+	}
 	if want("C02.12") {
 		ruleBlockRangeSlicing(p, r, "C02.12")
 	}
